@@ -26,9 +26,11 @@ Theorem C09_index_spec_all_or_nothing : forall (L : Type) (leq : L -> L -> bool)
 Proof. exact S_istep_all_or_nothing. Qed.
 Print Assumptions C09_index_spec_all_or_nothing.
 
-(* REFINEMENT: for every history of append / extend / reads inside the guard dom_irun the implementation
-   model (labels list, AutoMap or loc_is_iloc, count, array cache with its recache flag) holds exactly
-   the specification's labels, accepts exactly the same calls, and stays well formed *)
+(* REFINEMENT: for every history of append / extend / reads the implementation model (labels list, AutoMap
+   or loc_is_iloc, count, array cache with its recache flag; extend validating all values first, fix
+   c675c22) holds exactly the specification's labels, accepts exactly the same calls, and stays well
+   formed.  The guard dom_irun is `true` for an index with a map (next theorem); on a loc_is_iloc index it
+   only excludes extend with a non-int label equal to a held position (Refuted/C09.v) *)
 Theorem C09_index_refines : forall (L : Type) (leq : L -> L -> bool) (as_pos : L -> option Z),
   (forall a, leq a a = true) -> (forall a b, leq a b = leq b a) ->
   (forall a b x y, as_pos a = Some x -> as_pos b = Some y -> leq a b = (x =? y)) ->
@@ -38,6 +40,26 @@ Theorem C09_index_refines : forall (L : Type) (leq : L -> L -> bool) (as_pos : L
   map is_ok (snd (M_irun L leq as_pos s ops)) = map is_ok (snd (S_irun L leq (g_lm s) ops)).
 Proof. exact igo_refines. Qed.
 Print Assumptions C09_index_refines.
+
+(* ... and WITHOUT ANY GUARD for an index that has a map (every index built from explicit labels):
+   every history, valid or not; in particular every rejected append / extend is all-or-nothing *)
+Theorem C09_index_refines_with_map : forall (L : Type) (leq : L -> L -> bool) (as_pos : L -> option Z),
+  (forall a, leq a a = true) -> (forall a b, leq a b = leq b a) ->
+  (forall a b x y, as_pos a = Some x -> as_pos b = Some y -> leq a b = (x =? y)) ->
+  forall ops s, igo_wf L leq as_pos s -> g_map s <> None ->
+  igo_wf L leq as_pos (fst (M_irun L leq as_pos s ops)) /\
+  g_lm (fst (M_irun L leq as_pos s ops)) = fst (S_irun L leq (g_lm s) ops) /\
+  map is_ok (snd (M_irun L leq as_pos s ops)) = map is_ok (snd (S_irun L leq (g_lm s) ops)).
+Proof. exact igo_refines_with_map. Qed.
+Print Assumptions C09_index_refines_with_map.
+
+Theorem C09_index_extend_atomic : forall (L : Type) (leq : L -> L -> bool) (as_pos : L -> option Z),
+  (forall a, leq a a = true) -> (forall a b, leq a b = leq b a) ->
+  (forall a b x y, as_pos a = Some x -> as_pos b = Some y -> leq a b = (x =? y)) ->
+  forall s vs, igo_wf L leq as_pos s -> g_map s <> None ->
+  is_ok (snd (M_extend L leq as_pos s vs)) = false -> g_lm (fst (M_extend L leq as_pos s vs)) = g_lm s.
+Proof. exact M_extend_atomic_with_map. Qed.
+Print Assumptions C09_index_extend_atomic.
 
 (* what a reader sees of a well-formed index (after the cache is materialised): the labels, as many
    positions as labels, every label found at its own position *)
@@ -117,6 +139,20 @@ Theorem C09_frame_refines : forall (L V : Type) (leq : L -> L -> bool) (as_pos :
 Proof. exact fgo_refines. Qed.
 Print Assumptions C09_frame_refines.
 
+(* FrameGO.extend(Frame), no guard when the columns have a map: it meets the specification, and a
+   rejected call leaves labels and data exactly as they were *)
+Theorem C09_frame_extend_frame_atomic : forall (L V : Type) (leq : L -> L -> bool) (as_pos : L -> option Z)
+  (cast : dtype -> V -> V) (resolve : dtype -> dtype -> dtype),
+  (forall a, leq a a = true) -> (forall a b, leq a b = leq b a) ->
+  (forall a b x y, as_pos a = Some x -> as_pos b = Some y -> leq a b = (x =? y)) ->
+  forall f fidx fcols blocks fill fdt,
+  fgo_wf L V leq as_pos f -> g_map (f_cols f) <> None -> extframe_wfb L V fidx fcols blocks = true ->
+  let r := M_step L V leq as_pos cast resolve f (OExtFrame fidx fcols blocks fill fdt) in
+  fstep_refines L V leq as_pos r (S_step L V leq cast resolve (abs_fgo L V f) (OExtFrame fidx fcols blocks fill fdt)) /\
+  (is_ok (snd r) = false -> abs_fgo L V (fst r) = abs_fgo L V f).
+Proof. exact fgo_extend_frame_atomic. Qed.
+Print Assumptions C09_frame_extend_frame_atomic.
+
 (* lock-step after every such history: as many labels as data columns, rows untouched *)
 Theorem C09_frame_lockstep : forall (L V : Type) (leq : L -> L -> bool) (as_pos : L -> option Z)
   (cast : dtype -> V -> V) (resolve : dtype -> dtype -> dtype),
@@ -164,6 +200,20 @@ Theorem C09_hier_append_rejected : forall (L : Type) (leq : L -> L -> bool) (h :
   snd (M_happend L leq h key) = Err e -> fst (M_happend L leq h key) = h.
 Proof. exact hier_append_rejected. Qed.
 Print Assumptions C09_hier_append_rejected.
+
+(* IndexLevelGO.extend (after fixes 4b2944d / c675c22), no guard, also on a zero-length hierarchy *)
+Theorem C09_hier_extend_rejected : forall (L : Type) (leq : L -> L -> bool) (h o : hgo L) e,
+  snd (M_hextend L leq h o) = Err e -> fst (M_hextend L leq h o) = h.
+Proof. exact hier_extend_rejected. Qed.
+Print Assumptions C09_hier_extend_rejected.
+
+Theorem C09_hier_extend : forall (L : Type) (leq : L -> L -> bool),
+  (forall a b, leq a b = true -> a = b) -> forall (h o h' : hgo L),
+  lvl_wf L (h_tree h) -> lvl_wf L (h_tree o) -> M_hextend L leq h o = (h', Ok tt) ->
+  flatten L (h_tree h') = flatten L (h_tree h) ++ flatten L (h_tree o) /\ lvl_wf L (h_tree h') /\
+  h_depth h' = h_depth h.
+Proof. exact hier_extend_correct. Qed.
+Print Assumptions C09_hier_extend.
 
 Theorem C09_hier_nonvacuous :
   lvl_wf Z ex_tree /\
